@@ -34,7 +34,7 @@ TOUCH_DROP = [["touch_given", 2, 3], ["clone_drop"], ["drop_arena"]]
 
 
 class Q:
-    def __init__(self, name, props, tier, kind, freelist, setup, p1, p2, steps, switches, first, n1=(1, 24), n2=None, timeout=900, role=None,
+    def __init__(self, name, props, tier, kind, freelist, setup, p1, p2, steps, switches, first, n1=(1, 24), n2=None, timeout=1800, role=None,
                  selftest=False, retries=1):
         self.name, self.props, self.tier, self.kind = name, props, tier, kind
         self.freelist, self.setup, self.p1, self.p2 = freelist, setup, p1, p2
